@@ -5,6 +5,7 @@ import (
 	"sort"
 	"sync"
 	"sync/atomic"
+	"time"
 
 	"github.com/pion/interceptor"
 	"github.com/pion/rtcp"
@@ -580,6 +581,29 @@ func recordBadS9(st sStats, ref uint32) sStats {
 	for i := len(st.sentRefs) - 1; i >= 0; i-- {
 		if st.sentRefs[i] == ref {
 			st.Packets++
+		}
+	}
+	return st
+}
+
+// S9 (what is measured): the distance is taken from the entry that matched, not from something kept beside it.
+func recordGoodS9Rtt(st sStats, ref uint32, now time.Time) sStats {
+	for i := len(st.sentLog) - 1; i >= 0; i-- {
+		e := st.sentLog[i]
+		if e.ref == ref {
+			st.RTT = now.Sub(time.Unix(int64(e.ref), 0))
+			break
+		}
+	}
+	return st
+}
+
+func recordBadS9Rtt(st sStats, ref uint32, now time.Time) sStats {
+	for i := len(st.sentLog) - 1; i >= 0; i-- {
+		e := st.sentLog[i]
+		if e.ref == ref {
+			st.RTT = now.Sub(e.out)
+			break
 		}
 	}
 	return st
